@@ -32,6 +32,12 @@
         (validated first on the Go code: all DAGs <= 5 x 4 regimes x all root subsets x
          0..3 pops x all sums subsets = 9.7M calls, no counterexample)
 
+    The merge command (cmd/wrgl/merge_cmd.go runMerge) selects its base by ONE SeekCommonAncestor
+    call over all heads ([merge_base]); (d) and (e) therefore hold for the command for any number
+    of heads [C11_merge_base_found], [C11_merge_base_is_input].  Folding the two-input search over
+    the heads instead is NOT equivalent for >= 3 heads [C11_fold_not_all_at_once_refuted],
+    [C11_fold_witness]; for two heads it is [C11_fold2_same].
+
     "Whatever the commit timestamps say": the positive theorems quantify over EVERY
     placement function [ins] used by Insert and every initial ordering [srt] used by
     Reset that return permutations; [C11_go_placement] shows that the time-ordered
@@ -166,6 +172,48 @@ Theorem C11_queue_nonvacuous :
     t_remove_ancestors ex_ff (mk_cq [3; 2; 1] [1; 2; 3]) [2] = Ok (mk_cq [3] [1; 2; 3]).
 Proof. exact Ancestor_proofs.ex_queue_facts. Qed.
 Print Assumptions C11_queue_nonvacuous.
+
+(** the merge command: base = one search over all heads, so (e) and (d) hold for it with any
+    number of heads (for >= 3 heads a found base need not be common: clause (c) above) *)
+Theorem C11_merge_base_found : forall (g : graph) ins srt,
+  (forall c q, Permutation (ins c q) (c :: q)) -> (forall l, Permutation (srt l) l) ->
+  forall heads, heads <> [] -> (forall c, In c heads -> complete g [c]) ->
+  (exists x c, merge_base g ins srt heads = SFound x /\ In c heads /\ reach g [c] x) \/
+  (merge_base g ins srt heads = SNotFound /\ forall z, ~ common_ancestor g heads z).
+Proof. exact Ancestor_proofs.seek_total. Qed.
+Print Assumptions C11_merge_base_found.
+
+Theorem C11_merge_base_is_input : forall (g : graph) ins srt,
+  (forall c q, Permutation (ins c q) (c :: q)) -> (forall l, Permutation (srt l) l) ->
+  forall heads i c, (1 < length heads)%nat -> (forall c, In c heads -> complete g [c]) ->
+  base_input g heads i c ->
+  exists i' c', merge_base g ins srt heads = SFound c' /\ base_input g heads i' c'.
+Proof. exact Ancestor_proofs.seek_is_input. Qed.
+Print Assumptions C11_merge_base_is_input.
+
+(** a pairwise left fold of the two-input search is not the command's base selection: on the
+    criss-cross history Y = 0, X = 1 (independent roots, X newer), C1 = 2 = merge(X, Y),
+    C2 = 3 = merge(Y, X), C3 = 4 = child of Y, the fold settles on X for (C1, C2) and then
+    finds nothing, while the all-at-once search returns the common ancestor Y - also when Y
+    itself is the third head (an input that is an ancestor of all the others). *)
+Theorem C11_fold_witness :
+  closed wit_cc /\ acyclic wit_cc /\ complete wit_cc [2; 3; 4] /\
+  common_ancestor wit_cc [2; 3; 4] 0 /\
+  t_merge_base wit_cc [2; 3; 4] = SFound 0 /\ t_seek_fold wit_cc [2; 3; 4] = SNotFound /\
+  base_input wit_cc [2; 3; 0] 2 0 /\
+  t_merge_base wit_cc [2; 3; 0] = SFound 0 /\ t_seek_fold wit_cc [2; 3; 0] = SNotFound.
+Proof. exact Ancestor_proofs.fold_witness. Qed.
+Print Assumptions C11_fold_witness.
+
+Theorem C11_fold_not_all_at_once_refuted :
+  ~ (forall g cs, closed g -> acyclic g -> complete g cs -> t_seek_fold g cs = t_merge_base g cs).
+Proof. exact Ancestor_proofs.fold_not_all_at_once_refuted. Qed.
+Print Assumptions C11_fold_not_all_at_once_refuted.
+
+Theorem C11_fold2_same : forall g ins srt a b,
+  seek_fold g ins srt [a; b] = merge_base g ins srt [a; b].
+Proof. exact Ancestor_proofs.fold2_same. Qed.
+Print Assumptions C11_fold2_same.
 
 (** the time-ordered placement (sort.Search on commit times) and newest-first ordering of
     the Go code are permutations for every assignment of times: the theorems above apply to
